@@ -361,6 +361,7 @@ CUTSETS = {
     "maps": (r"BTreeMap<|serde_json::Map<|collections::btree::|btree_map::|btree::", "unreachable", None),
     "vecvalue": (r"Vec<serde_json::Value>.*(clone|drop|eq)|<\[serde_json::Value\]", "unreachable", None),
     "evaluate": (r"<op::(Operation|LazyOperation|DataOperation)(<'_>)? as Parser(<'_>)?>::evaluate", "unreachable", None),
+    "evaluate_lazy_data": (r"<op::(LazyOperation|DataOperation)(<'_>)? as Parser(<'_>)?>::evaluate", "unreachable", None),
     "nodrop": (NODROP, "noop", None),
 }
 
